@@ -752,6 +752,13 @@ def typings_of(a, values):
     aconst = dict(a, ovs=[ov for ov in a["ovs"] if ov.get("const")])
     for tup in tuples_of(a, values):
         v = verdict(a, tup)
+        if a["fam"].startswith("kwnames") and len(tup) == 1:
+            for nm in keyword_names(a):
+                vk = kwname_verdict(a, tup, nm)
+                if vk[0] == "native":
+                    for m in modes_of(a):
+                        if m != "c":
+                            seen.add((m, vk[1]))
         for m in modes_of(a):
             if m == "c":
                 if not aconst["ovs"]:
@@ -764,7 +771,37 @@ def typings_of(a, values):
     return sorted(seen)
 
 
+KW_VALUES = ["1", "1.5", "str", "VA", "None", "object"]
+
+
+def name_restricted(a, name):
+    """The overloads a ONE-argument keyword call `f(name=value)` can mean: those that accept a
+    single argument and whose first parameter bears that name (C++ has no keywords: the
+    documented parameter names decide)."""
+    return dict(a, ovs=[ov for ov in a["ovs"]
+                        if arity(ov)[0] <= 1 <= arity(ov)[1] and ov["names"][0] == name])
+
+
+def keyword_names(a):
+    """Names tried for one-argument keyword calls of a kwnames atom: every first-parameter name
+    of the set, plus a bogus one."""
+    names = []
+    for ov in a["ovs"]:
+        if ov["ps"] and ov["names"][0] not in names:
+            names.append(ov["names"][0])
+    return names + ["zz_bogus"]
+
+
+def kwname_verdict(a, tup, name):
+    r = name_restricted(a, name)
+    if not r["ovs"]:
+        return ("error", ["TypeError"], "kwname")
+    return verdict(r, tup)
+
+
 def values_for(a, tier):
+    if a["fam"].startswith("kwnames"):
+        return KW_VALUES
     if a["fam"].startswith("lattice"):
         return LATTICE_VALUES
     if a["fam"].startswith("constarg"):
@@ -795,6 +832,8 @@ def sig_str(ov):
         s += "|c"
     if ov.get("explicit"):
         s += "|x"
+    if ov["names"] != ["p%d" % i for i in range(len(ov["ps"]))]:
+        s += "|" + ".".join(ov["names"])
     return "(" + s + ")"
 
 
@@ -954,6 +993,34 @@ def constarg_sets(add, thorough):
             add(k, [make_ov(c) for c in cs], "constarg-a2")
 
 
+def kwname_sets(add, thorough):
+    """Parameter NAMES as part of the atom: 2-4 one-argument overloads whose names are all equal /
+    all different / only the first differs / only the last differs, next to an overload with
+    more parameters (which switches keyword acceptance on), in several declaration orders."""
+    cats = ["i", "d", "S", "pa"]
+    distinct = {"i": "count", "d": "weight", "S": "label", "pa": "shape"}
+    kinds = ("meth", "static", "free", "ctor") if thorough else ("meth", "static")
+    j = 0
+    for k in (2, 3, 4):
+        for rot in (range(4) if thorough else (0, 1)):
+            cs = [cats[(rot + i) % 4] for i in range(k)]
+            for pat in ("same", "different", "firstdiff", "lastdiff"):
+                if pat == "same":
+                    names = ["v"] * k
+                elif pat == "different":
+                    names = [distinct[c] for c in cs]
+                elif pat == "firstdiff":
+                    names = [distinct[cs[0]]] + ["v"] * (k - 1)
+                else:
+                    names = ["v"] * (k - 1) + [distinct[cs[-1]]]
+                ones = [make_ov([c], names=[n]) for c, n in zip(cs, names)]
+                many = make_ov(["i", "i", "i"], nd=1, names=["a", "b", "c"] if j % 3 else ["v", "b", "c"])
+                ovs = ones + [many] if j % 2 else [many] + ones
+                for kind in kinds:
+                    add(kind, ovs, "kwnames-%s" % pat)
+                j += 1
+
+
 def enumerate_atoms(tier):
     """Canonical, deterministic list of overload sets for the tier (simplest first)."""
     atoms = []
@@ -1008,6 +1075,7 @@ def enumerate_atoms(tier):
         oper_sets(add_oper, False)
         lattice_sets(add, kinds, False)
         constarg_sets(add, False)
+        kwname_sets(add, False)
         # arity 1 vs arity 2 with default (count overlap resolved by category / derivation)
         j = 0
         for c1, c2 in itertools.permutations(["i", "d", "s", "pa", "pb"], 2):
@@ -1041,6 +1109,7 @@ def enumerate_atoms(tier):
     oper_sets(add_oper, True)
     lattice_sets(add, kinds, True)
     constarg_sets(add, True)
+    kwname_sets(add, True)
     # size 3 over arity <= 1 without defaults, every call convention
     plain = [s for s in sigs1 if not s["nd"] and s["ps"]]
     for trio in itertools.combinations(plain, 3):
